@@ -142,7 +142,7 @@ def grid(live: Live, cname: str) -> List[Any]:
 
 
 def unrelated_grid(live: Live, cname: str) -> List[Any]:
-    out: List[Any] = [None, True, 0, 1, 1.5, "0:0", "", (0, 0), [0, 0], {"line": 0}, _Unrelated(), object(), 2**40]
+    out: List[Any] = [None, True, 0, 1, 1.5, "0:0", "", (0, 0), (1, 5), (), (3,), (0, "0"), (0, 0, 0), (0.5, 1), [0, 0], {"line": 0}, _Unrelated(), object(), 2**40]
     for o in cp.FIELDS:
         if o != cname:
             out.append(grid(live, o)[0])
@@ -210,9 +210,7 @@ def lemma_differential(run: Run, live: Live, world, lemma_id: str, fname: str, c
             obj_env("b", args[1], env)
         else:
             x = args[1]
-            if isinstance(x, (tuple, list, dict)):
-                continue  # containers are not among the modelled alternatives of the unrelated operand
-            scalardiff.dyn_env("x", x, env, class_ids)
+            scalardiff.dyn_env("x", x, env, class_ids, [a for a in cp.UNRELATED if isinstance(a, tuple) and a[0] == "tuple_of"])
             if type(x).__name__ in cp.FIELDS:
                 obj_env("x", x, env)
         preds = {p[:2] for p in scalardiff.predicted(rep.paths_full, env) if p[0] != "unknown"}
